@@ -233,6 +233,8 @@ pub struct LiveTrack {
     pub gallery: Vec<GalleryItem>,
     pub collected_count: usize,
     pub n_class0: usize,
+    /// own-area share recorded with the newest observation (VisualSORT with own-area thresholds enabled)
+    pub own_share: Option<f32>,
 }
 
 // ------------------------------------------------------------------------------------------------
@@ -358,6 +360,47 @@ impl AnyTracker {
             }
             _ => batch.iter().filter(|(_, d)| !d.is_empty()).map(|(s, d)| (*s, self.predict(*s, d))).collect(),
         }
+    }
+
+    /// submit one batch and hand its result object to a consumer thread started BEFORE predict (the second
+    /// retrieval discipline the batch API allows); the receiver yields the batch's results once drained
+    pub fn submit_with_consumer(&mut self, batch: &[(u64, Vec<Det>)]) -> std::sync::mpsc::Receiver<Vec<(u64, Vec<Rec>)>> {
+        let (tx, rx) = std::sync::mpsc::channel();
+        let spawn_consumer = |res: similari::trackers::batch::PredictionBatchResult| {
+            std::thread::spawn(move || {
+                let n = res.batch_size();
+                let mut out = vec![];
+                for _ in 0..n {
+                    let (s, v) = res.get();
+                    out.push((s, v.iter().map(Rec::from_lib).collect::<Vec<_>>()));
+                }
+                let _ = tx.send(out);
+            })
+        };
+        match self {
+            AnyTracker::BatchSort(t) => {
+                let (mut req, res) = PredictionBatchRequest::<(Universal2DBox, Option<i64>)>::new();
+                for (s, ds) in batch {
+                    for d in ds {
+                        req.add(*s, (d.b.lib(), d.custom));
+                    }
+                }
+                let _h = spawn_consumer(res);
+                t.predict(req);
+            }
+            AnyTracker::BatchVisual(t) => {
+                let (mut req, res) = PredictionBatchRequest::<VisualSortObservation>::new();
+                for (s, ds) in batch {
+                    for d in ds {
+                        req.add(*s, VisualSortObservation::new(d.feature.as_deref(), d.quality, d.b.lib(), d.custom));
+                    }
+                }
+                let _h = spawn_consumer(res);
+                t.predict(req);
+            }
+            _ => panic!("submit_with_consumer on a simple tracker"),
+        }
+        rx
     }
 
     pub fn skip_epochs(&mut self, scene: u64, n: usize) {
@@ -517,6 +560,7 @@ fn live_sort(id: u64, t: &SortStored, _shard: usize, _n: usize) -> LiveTrack {
         gallery: vec![],
         collected_count: 0,
         n_class0: obs.map(|o| o.len()).unwrap_or(0),
+        own_share: None,
     }
 }
 
@@ -549,6 +593,7 @@ fn live_visual(id: u64, t: &VisualStored) -> LiveTrack {
         gallery,
         collected_count: a.visual_features_collected_count,
         n_class0: obs.map(|o| o.len()).unwrap_or(0),
+        own_share: obs.and_then(|o| o.first()).and_then(|o| o.attr().as_ref()).and_then(|x| *x.own_area_percentage_opt()),
     }
 }
 
@@ -746,7 +791,10 @@ pub fn step_scene(rng: &mut Rng, objs: &mut [Obj], scene: u64, step: usize, o: &
         };
         let quality = if o.features {
             if o.low_quality {
-                Some(*rng.pick(&[0.1f32, 0.3, 0.5, 0.5, 0.7, 0.9]))
+                // grid values that hit the thresholds exactly; a third of them nudged by a few 1e-6 so that stored
+                // qualities can be distinct yet closer than the library's epsilon
+                let q = *rng.pick(&[0.1f32, 0.3, 0.5, 0.5, 0.7, 0.9]);
+                Some(if rng.chance(0.33) { q + rng.range(1, 8) as f32 * 1e-6 } else { q })
             } else if rng.chance(0.1) {
                 None
             } else {
